@@ -135,6 +135,8 @@ func main() {
 			p := path
 			if !s.Readable {
 				switch s.Unread {
+				case "empty": // a file argument that is there but empty: no such file
+					p = ""
 				case "dir":
 					p = filepath.Join(dir, fmt.Sprintf("d%d.ank", n))
 					os.Mkdir(p, 0o755)
